@@ -147,10 +147,10 @@ func (queue *PacketQueue) Write(p []byte) (int, error) {
 
 // Bytes returns a slice of bytes from the queue.
 //
-// The returned byte slice will always be of length n.
-//
-// If there aren't enough bytes to read n bytes Bytes will return
-// a wrapped io.EOF. The returned byte slice will still be of length n.
+// If there aren't enough bytes to read n bytes Bytes returns an empty
+// slice and ErrNotEnoughBytes and all queued bytes are consumed.
+// n is usually a length sent by the server - the slice is only
+// allocated once it is known that the bytes are available.
 func (queue *PacketQueue) Bytes(n int) ([]byte, error) {
 	queue.Lock()
 	defer queue.Unlock()
@@ -161,6 +161,12 @@ func (queue *PacketQueue) Bytes(n int) ([]byte, error) {
 
 	if n < 0 {
 		return []byte{}, fmt.Errorf("tds: cannot read %d bytes", n)
+	}
+
+	if n > queue.unread() {
+		queue.indexPacket = len(queue.queue)
+		queue.indexData = 0
+		return []byte{}, ErrNotEnoughBytes
 	}
 
 	bs := make([]byte, n)
@@ -202,10 +208,26 @@ func (queue *PacketQueue) Bytes(n int) ([]byte, error) {
 	return bs, nil
 }
 
+// unread returns the number of queued bytes after the current position.
+// The lock must be held by the caller.
+func (queue *PacketQueue) unread() int {
+	n := 0
+	for i := queue.indexPacket; i < len(queue.queue); i++ {
+		n += len(queue.queue[i].Data)
+		if i == queue.indexPacket {
+			n -= queue.indexData
+		}
+	}
+	return n
+}
+
 // Byte implements the tds.BytesChannel interface.
 func (queue *PacketQueue) Byte() (byte, error) {
 	bs, err := queue.Bytes(1)
-	return bs[0], err
+	if err != nil {
+		return 0, err
+	}
+	return bs[0], nil
 }
 
 // Uint8 implements the tds.BytesChannel interface.
@@ -223,7 +245,10 @@ func (queue *PacketQueue) Int8() (int8, error) {
 // Uint16 implements the tds.BytesChannel interface.
 func (queue *PacketQueue) Uint16() (uint16, error) {
 	bs, err := queue.Bytes(2)
-	return endian.Uint16(bs), err
+	if err != nil {
+		return 0, err
+	}
+	return endian.Uint16(bs), nil
 }
 
 // Int16 implements the tds.BytesChannel interface.
@@ -235,7 +260,10 @@ func (queue *PacketQueue) Int16() (int16, error) {
 // Uint32 implements the tds.BytesChannel interface.
 func (queue *PacketQueue) Uint32() (uint32, error) {
 	bs, err := queue.Bytes(4)
-	return endian.Uint32(bs), err
+	if err != nil {
+		return 0, err
+	}
+	return endian.Uint32(bs), nil
 }
 
 // Int32 implements the tds.BytesChannel interface.
@@ -247,7 +275,10 @@ func (queue *PacketQueue) Int32() (int32, error) {
 // Uint64 implements the tds.BytesChannel interface.
 func (queue *PacketQueue) Uint64() (uint64, error) {
 	bs, err := queue.Bytes(8)
-	return endian.Uint64(bs), err
+	if err != nil {
+		return 0, err
+	}
+	return endian.Uint64(bs), nil
 }
 
 // Int64 implements the tds.BytesChannel interface.
